@@ -22,8 +22,8 @@ def handle (line : String) : String :=
   match toks with
   | [] => "bad-case"
   | op :: _ =>
-    if op == "tpkt_read" || op == "x224_read" || op == "tpkt_tls" then c13 toks
-    else if op == "tpkt_write" || op == "x224_write" || op == "tpkt_writes" || op == "link_write" || op == "tpkt_write_msg" then c14 toks
+    if op == "tpkt_read" || op == "x224_read" || op == "x224_read_rdp" || op == "tpkt_tls" then c13 toks
+    else if op == "tpkt_write" || op == "x224_write" || op == "tpkt_write_sd" || op == "x224_write_sd" || op == "tpkt_writes" || op == "link_write" || op == "tpkt_write_msg" then c14 toks
     else if op == "blit" || op == "blitz" || op == "blit16" || op == "blitd" || op == "blitseq" || op == "blitdseq" then c19 toks
     else if op.startsWith "per_" then per toks
     else if op == "gsess" then gsess toks
